@@ -70,7 +70,10 @@ META = {
         "nothing but one reference for 1, IREF_AMBIGUOUS exactly once plus one reference for >1; the handler of a try around the href "
         "parse is its own outcome class (exactly one warning, no lookup, no reference); the first match is used; refuri is "
         "posixpath.join(base_url, loc) if base_url else loc (urljoin is rejected: RFC-relative resolution drops the base's last segment), "
-        "match.loc for Sphinx inventories."
+        "match.loc for Sphinx inventories. Code moved into private helpers is followed one level: the href decomposition "
+        "returned as a tuple / NamedTuple / dataclass (role tracing and the per-part execution continue inside the helper, "
+        "selected by field or index), warnings and the reference construction produced by a helper a fixed number of times, "
+        "the href parse behind a helper call, the refuri store in the helper that receives the selected match."
     ),
     "not_decided": (
         "matching results as values for concrete (pattern, name) pairs beyond what the extracted transducer implies; the behaviour of "
@@ -1676,9 +1679,20 @@ def _ev_len(t: ast.expr, lens: dict[str, int], n: int):
             for cls, fn in ((ast.Gt, a > b), (ast.GtE, a >= b), (ast.Lt, a < b), (ast.LtE, a <= b), (ast.Eq, a == b), (ast.NotEq, a != b)):
                 if isinstance(op, cls):
                     return fn
-    if _mentions(t, lens):
+    if _mentions_whole(t, lens):
         _unsupported_len(t)
-    return None
+    return None  # e.g. `matches[0].text`: a property of an entry, not of the number of entries
+
+
+def _mentions_whole(t: ast.AST, names) -> bool:
+    """The list itself (not merely one of its elements, `m[i]...`) occurs in the test."""
+    for x in ast.walk(t):
+        if isinstance(x, ast.Name) and x.id in names:
+            px = parent(x)
+            if isinstance(px, ast.Subscript) and px.value is x and not isinstance(px.slice, ast.Slice):
+                continue
+            return True
+    return False
 
 
 def _mentions(t: ast.AST, names) -> bool:
@@ -2255,9 +2269,10 @@ def r4_link_paths(corpus: Corpus, rep: Report, tier: str):
                     ws: dict[object, int] = {}
                     for e in direct_in(tf):
                         ws[tcfg.stmt_of(e)] = ws.get(tcfg.stmt_of(e), 0) + 1
-                    if tcfg.counts(ENTRY, [EXIT], lambda x: ws.get(x, 0) if not isinstance(x, (tuple, str)) else 0).get(EXIT) != {1}:
+                    cnt = tcfg.counts(ENTRY, [EXIT], lambda x: ws.get(x, 0) if not isinstance(x, (tuple, str)) else 0).get(EXIT) or set()
+                    if len(cnt) != 1:
                         raise Unsupported(f"{fi.qualname}: {what} is produced by helper {tf.qualname} on some paths only; not modelled")
-                    out.append(c)
+                    out += [c] * cnt.pop()  # once per production (2 stands for "two or more")
             return out
 
         miss, amb = ev_calls(emits("IREF_MISSING"), "IREF_MISSING"), ev_calls(emits("IREF_AMBIGUOUS"), "IREF_AMBIGUOUS")
@@ -2371,24 +2386,51 @@ def r4_link_paths(corpus: Corpus, rep: Report, tier: str):
                 else:
                     rep.violation("C19.R4", k, fi.module.site(u.stmt), f"`{short(u.stmt, 40)}` binds {name} to entry {idx} of the matches, not the first matching entry")
                 mvars.append(name)
-        if len(mvars) != 1:
-            raise Unsupported(f"{fi.qualname}: the variable holding the selected match was not identified ({mvars})")
-        mv = mvars[0]
-        # (d) refuri
-        uris = []
-        for n in fi.local_nodes():
-            if isinstance(n, ast.Assign) and len(n.targets) == 1 and isinstance(n.targets[0], ast.Subscript) and isinstance(n.targets[0].slice, ast.Constant) and n.targets[0].slice.value == "refuri":
-                uris.append(n.value)
-            if isinstance(n, ast.Call) and kwarg(n, "refuri") is not None:
-                uris.append(kwarg(n, "refuri"))
-        if len(uris) != 1:
-            raise Unsupported(f"{fi.qualname}: {len(uris)} refuri stores")
+        # (d) refuri - here, or in the helper the first match is handed to
+        def uri_stores(f: FunctionInfo) -> list[ast.expr]:
+            out = []
+            for n in f.local_nodes():
+                if isinstance(n, ast.Assign) and len(n.targets) == 1 and isinstance(n.targets[0], ast.Subscript) and isinstance(n.targets[0].slice, ast.Constant) and n.targets[0].slice.value == "refuri":
+                    out.append(n.value)
+                if isinstance(n, ast.Call) and kwarg(n, "refuri") is not None:
+                    out.append(kwarg(n, "refuri"))
+            return out
+
+        def is_first_match(a: ast.expr) -> bool:
+            if isinstance(a, ast.Name):
+                return a.id in mvars
+            if isinstance(a, ast.Subscript) and isinstance(a.value, ast.Name) and a.value.id in lens and isinstance(a.slice, ast.Constant) and type(a.slice.value) is int:
+                return True  # the selected entry (that it is entry 0 is judged above)
+            return False
+
         k = f"{fi.fq}|refuri"
-        verdict = _refuri_verdict(uris[0], mv, rk, fi.module)
-        if verdict is None:
-            rep.ok("C19.R4", k, fi.module.site(uris[0]), unparse(uris[0])[:100])
+        uris = uri_stores(fi)
+        if len(uris) == 1:
+            if len(set(mvars)) != 1:
+                raise Unsupported(f"{fi.qualname}: the variable holding the selected match was not identified ({mvars})")
+            where, mv, uri = fi, mvars[0], uris[0]
+        elif not uris:
+            cands = []
+            for c in fi.local_nodes():
+                if isinstance(c, ast.Call) and any(is_first_match(a) for a in [*c.args, *[kw.value for kw in c.keywords]]):
+                    tf = _callee(c, fi, g)
+                    if tf is None or tf.fq == fi.fq:
+                        continue
+                    for pname, a in _arg_map(c, tf).items():
+                        if is_first_match(a) and uri_stores(tf):
+                            cands.append((tf, pname, uri_stores(tf)))
+            if len(cands) != 1 or len(cands[0][2]) != 1:
+                raise Unsupported(f"{fi.qualname}: the refuri store was not found here nor in a helper that receives the first match")
+            where, mv, uri = cands[0][0], cands[0][1], cands[0][2][0]
+            if _defs_of(where, mv):
+                raise Unsupported(f"{where.qualname}: parameter {mv} is re-assigned")
         else:
-            rep.violation("C19.R4", k, fi.module.site(uris[0]), verdict)
+            raise Unsupported(f"{fi.qualname}: {len(uris)} refuri stores")
+        verdict = _refuri_verdict(uri, mv, rk, where.module)
+        if verdict is None:
+            rep.ok("C19.R4", k, where.module.site(uri), unparse(uri)[:100])
+        else:
+            rep.violation("C19.R4", k, where.module.site(uri), verdict)
     rep.expect_min("C19.R4", 27, "13 pass-through keywords + 2 x (order, 3 count classes, first match, refuri)")
 
 
